@@ -240,6 +240,11 @@ struct Def {
     variadic: bool,
     caps: Vec<(u32, V)>,
     generator: bool,
+    /// the body refers to the function by its own name: `f` is one of its captures, filled in by the
+    /// deferred `Capture` once `f = |…| …` is committed. The value is the position of that capture
+    /// among `caps` (capture-list order of the model; the real order is unobservable). The body
+    /// reports `f == null` for it (name 0).
+    self_ref: Option<usize>,
 }
 
 fn entry_sexp(e: &Entry) -> String {
@@ -300,8 +305,23 @@ impl Def {
             }
         }
         top.extend(nested);
-        top.extend(self.caps.iter().map(|c| c.0));
+        top.extend(self.cap_names());
         top
+    }
+    /// capture names in capture-list order, 0 = the function itself
+    fn cap_names(&self) -> Vec<u32> {
+        let mut v: Vec<u32> = self.caps.iter().map(|c| c.0).collect();
+        if let Some(j) = self.self_ref {
+            v.insert(j.min(v.len()), 0);
+        }
+        v
+    }
+    fn cap_vals(&self) -> Vec<String> {
+        let mut v: Vec<String> = self.caps.iter().map(|c| c.1.canon()).collect();
+        if let Some(j) = self.self_ref {
+            v.insert(j.min(v.len()), "null".into());
+        }
+        v
     }
     fn n_opt(&self) -> usize {
         self.params.iter().filter(|p| p.default.is_some()).count()
@@ -311,13 +331,14 @@ impl Def {
     }
     fn sexp(&self) -> String {
         format!(
-            "(fn (ps{}) {} {} (caps{}) (dv{}) (cv{}))",
+            "(fn (ps{}) {} {} (caps{}) (dv{}) (cv{}) (self {}))",
             self.params.iter().map(|p| format!(" {}", pat_sexp(&p.pat))).collect::<String>(),
             self.n_opt(),
             self.variadic as u8,
-            self.caps.iter().map(|c| format!(" {}", c.0)).collect::<String>(),
+            self.cap_names().iter().map(|c| format!(" {}", c)).collect::<String>(),
             self.params.iter().filter_map(|p| p.default.as_ref()).map(|v| format!(" {}", v.canon())).collect::<String>(),
-            self.caps.iter().map(|c| format!(" {}", c.1.canon())).collect::<String>(),
+            self.cap_vals().iter().map(|c| format!(" {}", c)).collect::<String>(),
+            match self.self_ref { Some(j) => j.min(self.caps.len()).to_string(), None => "-".into() },
         )
     }
     /// script prefix: captured variables, the definition (defaults through `tick`), reassignment
@@ -347,7 +368,7 @@ impl Def {
             .collect();
         s.push_str(&format!("f = |{}|\n", ps.join(", ")));
         let mut items = vec!["(if self == null then null else self.tag)".to_string()];
-        items.extend(self.names().iter().map(|n| format!("v{}", n)));
+        items.extend(self.names().iter().map(|n| if *n == 0 { "(f == null)".to_string() } else { format!("v{}", n) }));
         let tuple = if items.len() == 1 { format!("({},)", items[0]) } else { format!("({})", items.join(", ")) };
         if self.generator {
             s.push_str(&format!("  yield {}\n", tuple));
@@ -357,7 +378,7 @@ impl Def {
         for (n, _) in &self.caps {
             s.push_str(&format!("v{} = 'changed'\n", n));
         }
-        s.push_str("m = {tag: 7, f}\n");
+        s.push_str("m = {tag: 7, f}\na2 = {m}\na3 = {a2}\n");
         s
     }
 }
@@ -368,10 +389,21 @@ enum Form {
     Free,
     Piped(bool), // rest parenthesised?
     Inst(bool),  // paren-free?
+    /// `x -> m.f y…` / `x -> a2.m.f` / `x -> a3.a2.m.f y…`: piped into a method reached through a
+    /// chain; must equal `m.f(x, y…)` (self = the innermost container)
+    PipedInst,
+}
+
+impl Form {
+    fn is_piped(&self) -> bool {
+        matches!(self, Form::Piped(_) | Form::PipedInst)
+    }
 }
 
 #[derive(Clone, Debug)]
 struct Call {
+    /// length of the access chain to the method for Inst / PipedInst: 1 `m.f`, 2 `a2.m.f`, 3 `a3.a2.m.f`
+    depth: u8,
     form: Form,
     args: Vec<(V, bool)>, // value, packed
 }
@@ -384,6 +416,7 @@ impl Call {
             Form::Paren | Form::Free => format!("(plain {} - (args{}))", g, args(&self.args)),
             Form::Piped(_) => format!("(piped {} {} (args{}))", g, self.args[0].0.canon(), args(&self.args[1..])),
             Form::Inst(_) => format!("(inst {} (m (sx746167 i7)) (args{}))", g, args(&self.args)),
+            Form::PipedInst => format!("(pinst {} {} (args{}))", g, self.args[0].0.canon(), args(&self.args[1..])),
         }
     }
     fn koto(&self, generator: bool) -> String {
@@ -407,6 +440,7 @@ impl Call {
         if PLANT.load(std::sync::atomic::Ordering::Relaxed) && matches!(self.form, Form::Free) && texts.len() >= 2 {
             texts.swap(0, 1);
         }
+        let path = match self.depth { 0 | 1 => "m.f", 2 => "a2.m.f", _ => "a3.a2.m.f" };
         let paren = |f: &str, a: &[String]| format!("{}({})", f, a.join(", "));
         let free = |f: &str, a: &[String]| if a.is_empty() { format!("{}()", f) } else { format!("{} {}", f, a.join(", ")) };
         let call = match &self.form {
@@ -422,7 +456,11 @@ impl Call {
                     format!("{} -> {}", texts[0], free("f", rest))
                 }
             }
-            Form::Inst(fr) => if *fr { free("m.f", &texts) } else { paren("m.f", &texts) },
+            Form::Inst(fr) => if *fr { free(path, &texts) } else { paren(path, &texts) },
+            Form::PipedInst => {
+                let rest = &texts[1..];
+                if rest.is_empty() { format!("{} -> {}", texts[0], path) } else { format!("{} -> {}", texts[0], free(path, rest)) }
+            }
         };
         if generator {
             format!("{}g = {}\ng.next().get()\n", pre, call)
@@ -534,7 +572,9 @@ fn gen_def(rng: &mut Rng, n_req: usize, n_opt: usize, variadic: bool, n_caps: us
         params.push(Param { pat: Pat::Id(ng.next()), default: None });
     }
     let caps = (0..n_caps).map(|_| (ng.next(), small_val(rng, 1))).collect();
-    Def { params, variadic, caps, generator: rng.chance(1, 6) }
+    let caps: Vec<(u32, V)> = caps;
+    let self_ref = if rng.chance(1, 3) { Some(rng.below(caps.len() + 1)) } else { None };
+    Def { params, variadic, caps, generator: rng.chance(1, 6), self_ref }
 }
 
 /// call arguments for a flat list of values: group runs into packed containers, add empty packs
@@ -589,14 +629,15 @@ fn gen_call(rng: &mut Rng, d: &Def, count: usize, n_packs: usize, form_pick: usi
         0 => Form::Paren,
         1 => Form::Free,
         2 => Form::Piped(false),
-        3 => Form::Piped(false),
+        3 => Form::PipedInst,
         4 => Form::Inst(false),
         5 => Form::Inst(true),
-        _ => Form::Paren,
+        _ => Form::PipedInst,
     };
-    let form = if matches!(form, Form::Piped(_)) && count == 0 { Form::Paren } else { form };
+    let form = if form.is_piped() && count == 0 { if matches!(form, Form::PipedInst) { Form::Inst(false) } else { Form::Paren } } else { form };
+    let depth = 1 + rng.below(3) as u8;
     let args = match form {
-        Form::Piped(_) => {
+        Form::Piped(_) | Form::PipedInst => {
             let first = flat.remove(0);
             let mut a = vec![(first, false)];
             a.extend(pack_args(rng, flat, n_packs, true));
@@ -606,7 +647,7 @@ fn gen_call(rng: &mut Rng, d: &Def, count: usize, n_packs: usize, form_pick: usi
     };
     // paren-free calls cannot start with a parenthesised/packed-empty ambiguity: `f ()...` is fine,
     // but a call without arguments is written `f()`
-    Call { form, args }
+    Call { depth, form, args }
 }
 
 // ------------------------------------------------------------------------------------------------
@@ -1430,14 +1471,14 @@ impl CaseAst {
             CaseAst::Bind(d, c) => {
                 // call side
                 for i in 0..c.args.len() {
-                    if !(matches!(c.form, Form::Piped(_)) && c.args.len() == 1) {
+                    if !(c.form.is_piped() && c.args.len() == 1) {
                         let mut c2 = c.clone();
                         c2.args.remove(i);
-                        if !(matches!(c2.form, Form::Piped(_)) && (c2.args.is_empty() || c2.args[0].1)) {
+                        if !(c2.form.is_piped() && (c2.args.is_empty() || c2.args[0].1)) {
                             out.push(CaseAst::Bind(d.clone(), c2));
                         }
                     }
-                    if c.args[i].1 && !(matches!(c.form, Form::Piped(_)) && i == 0) {
+                    if c.args[i].1 && !(c.form.is_piped() && i == 0) {
                         // a packed container loses its last element
                         if let Some(mut es) = c.args[i].0.elems() {
                             if es.pop().is_some() {
@@ -1453,11 +1494,22 @@ impl CaseAst {
                         out.push(CaseAst::Bind(d.clone(), c2));
                     }
                 }
-                if !matches!(c.form, Form::Paren) && !matches!(c.form, Form::Piped(_)) {
-                    out.push(CaseAst::Bind(d.clone(), Call { form: Form::Paren, args: c.args.clone() }));
+                if let Form::PipedInst = c.form {
+                    out.push(CaseAst::Bind(d.clone(), Call { depth: c.depth, form: Form::Inst(false), args: c.args.clone() }));
+                }
+                if c.depth > 1 {
+                    out.push(CaseAst::Bind(d.clone(), Call { depth: c.depth - 1, form: c.form.clone(), args: c.args.clone() }));
+                }
+                if d.self_ref.is_some() {
+                    let mut d2 = d.clone();
+                    d2.self_ref = None;
+                    out.push(CaseAst::Bind(d2, c.clone()));
+                }
+                if !matches!(c.form, Form::Paren) && !c.form.is_piped() {
+                    out.push(CaseAst::Bind(d.clone(), Call { depth: 1, form: Form::Paren, args: c.args.clone() }));
                 }
                 if let Form::Piped(_) = c.form {
-                    out.push(CaseAst::Bind(d.clone(), Call { form: Form::Paren, args: c.args.clone() }));
+                    out.push(CaseAst::Bind(d.clone(), Call { depth: 1, form: Form::Paren, args: c.args.clone() }));
                 }
                 // definition side
                 if d.generator {
@@ -1932,6 +1984,7 @@ fn fixed_cases(ctx: &mut Ctx) {
         variadic: true,
         caps: vec![(8, V::I(80)), (9, V::L(vec![V::I(9)]))],
         generator: false,
+        self_ref: None,
     };
     let container = V::T(vec![V::I(1), V::L(vec![V::I(2), V::I(3), V::I(4)])]);
     for n_extra in 0..6usize {
@@ -1939,12 +1992,51 @@ fn fixed_cases(ctx: &mut Ctx) {
         for i in 0..n_extra {
             args.push((V::I(100 + i as i64), false));
         }
-        for form in [Form::Paren, Form::Free, Form::Inst(false), Form::Piped(false)] {
-            ctx.push(bind_case(&d, &Call { form, args: args.clone() }));
+        for form in [Form::Paren, Form::Free, Form::Inst(false), Form::Piped(false), Form::PipedInst] {
+            ctx.push(bind_case(&d, &Call { depth: 1 + (n_extra % 3) as u8, form, args: args.clone() }));
+        }
+    }
+    // self reference x defaults x ordinary captures x generator: the function's own capture slot
+    // comes after the default-value slots (slot = optional_arg_count + capture index), also when
+    // its `Capture` is deferred until the assignment is committed
+    for n_opt in 0..=3usize {
+        for n_caps in 0..=2usize {
+            for self_pos in 0..=n_caps {
+                for generator in [false, true] {
+                    let mut params = vec![id(1)];
+                    for k in 0..n_opt {
+                        params.push(opt(2 + k as u32, V::I(20 + k as i64)));
+                    }
+                    let caps: Vec<(u32, V)> = (0..n_caps).map(|k| (10 + k as u32, V::I(70 + k as i64))).collect();
+                    let ds = Def { params, variadic: false, caps, generator, self_ref: Some(self_pos) };
+                    for count in 1..=1 + n_opt {
+                        let args: Vec<(V, bool)> = (0..count).map(|k| (V::I(100 + k as i64), false)).collect();
+                        let form = [Form::Paren, Form::Free, Form::Inst(false), Form::PipedInst, Form::Piped(false)][(n_opt + n_caps + self_pos + count) % 5].clone();
+                        ctx.push(bind_case(&ds, &Call { depth: 1 + ((count + self_pos) % 3) as u8, form, args }));
+                    }
+                }
+            }
+        }
+    }
+    // piped into a method through a chain of containers, 1-3 levels, with/without extra arguments,
+    // packed extras, function and generator method: must equal the direct call m.f(x, ...)
+    for generator in [false, true] {
+        let dm = Def { params: vec![id(1), opt(2, V::I(20)), id(3)], variadic: true, caps: vec![(4, V::I(40))], generator, self_ref: None };
+        for depth in 1..=3u8 {
+            for extra in 0..3usize {
+                let mut args = vec![(V::I(1), false)];
+                for k in 0..extra {
+                    args.push((V::I(5 + k as i64), false));
+                }
+                ctx.push(bind_case(&dm, &Call { depth, form: Form::PipedInst, args: args.clone() }));
+                ctx.push(bind_case(&dm, &Call { depth, form: Form::Inst(extra % 2 == 0), args: args.clone() }));
+                args.push((V::T(vec![V::I(8), V::I(9)]), true));
+                ctx.push(bind_case(&dm, &Call { depth, form: Form::PipedInst, args }));
+            }
         }
     }
     // packed arguments: empty pack before a non-empty one (negative offset), with and without pipe
-    let d3 = Def { params: vec![id(1), id(2), id(3)], variadic: false, caps: vec![], generator: false };
+    let d3 = Def { params: vec![id(1), id(2), id(3)], variadic: false, caps: vec![], generator: false, self_ref: None };
     let e = || (V::L(vec![]), true);
     let p = |xs: Vec<i64>| (V::T(xs.into_iter().map(V::I).collect()), true);
     let packs: Vec<Vec<(V, bool)>> = vec![
@@ -1962,24 +2054,24 @@ fn fixed_cases(ctx: &mut Ctx) {
     ];
     for args in packs {
         for form in [Form::Paren, Form::Free, Form::Inst(false)] {
-            ctx.push(bind_case(&d3, &Call { form, args: args.clone() }));
+            ctx.push(bind_case(&d3, &Call { depth: 1, form, args: args.clone() }));
         }
         let mut piped = vec![(V::I(0), false)];
         piped.extend(args.clone());
-        let d4 = Def { params: vec![id(1), id(2), id(3), id(4)], variadic: false, caps: vec![], generator: false };
-        ctx.push(bind_case(&d4, &Call { form: Form::Piped(false), args: piped }));
+        let d4 = Def { params: vec![id(1), id(2), id(3), id(4)], variadic: false, caps: vec![], generator: false, self_ref: None };
+        ctx.push(bind_case(&d4, &Call { depth: 1, form: Form::Piped(false), args: piped }));
     }
     // F-C02-3 / F-C02-4 (fixed): sole ellipsis patterns; generator calls with empty/short packs
     for pk in [Pat::Pk(Some(1)), Pat::Pk(None)] {
-        let ds = Def { params: vec![Param { pat: Pat::Tup(vec![pk.clone()]), default: None }, id(2)], variadic: false, caps: vec![], generator: false };
+        let ds = Def { params: vec![Param { pat: Pat::Tup(vec![pk.clone()]), default: None }, id(2)], variadic: false, caps: vec![], generator: false, self_ref: None };
         for c in [V::T(vec![V::I(1), V::I(2), V::I(3)]), V::L(vec![V::I(1)]), V::T(vec![]), V::S("ab".into()), V::I(3)] {
-            ctx.push(bind_case(&ds, &Call { form: Form::Paren, args: vec![(c.clone(), false), (V::I(9), false)] }));
+            ctx.push(bind_case(&ds, &Call { depth: 1, form: Form::Paren, args: vec![(c.clone(), false), (V::I(9), false)] }));
         }
     }
-    let dg = Def { params: vec![id(1), opt(2, V::I(20))], variadic: false, caps: vec![(3, V::I(30))], generator: true };
+    let dg = Def { params: vec![id(1), opt(2, V::I(20))], variadic: false, caps: vec![(3, V::I(30))], generator: true, self_ref: None };
     for args in [vec![e(), (V::I(1), false)], vec![(V::I(1), false), e()], vec![e(), e(), p(vec![1])], vec![p(vec![1]), e()], vec![p(vec![1, 2])]] {
         for form in [Form::Paren, Form::Free, Form::Inst(false)] {
-            ctx.push(bind_case(&dg, &Call { form, args: args.clone() }));
+            ctx.push(bind_case(&dg, &Call { depth: 1, form, args: args.clone() }));
         }
     }
     fixed_cases2(ctx);
@@ -2159,6 +2251,7 @@ fn main() {
                     let arity = n_req + n_opt;
                     let lo = arity.saturating_sub(2);
                     let mut d = gen_def(&mut rng, n_req, n_opt, variadic, n_caps, false);
+                    d.self_ref = if (n_req + n_opt + n_caps + variadic as usize) % 2 == 0 { Some((n_req + n_opt) % (n_caps + 1)) } else { None };
                     for count in lo..=arity + 2 {
                         for form in 0..forms {
                             for n_packs in 0..=(if thorough { 2 } else { 1 }) {
@@ -2201,6 +2294,12 @@ fn main() {
             let depth = d.params.iter().map(|p| pat_depth(&p.pat)).max().unwrap_or(0);
             ctx.rep.bump(&format!("bind:pattern-depth={}", depth));
             ctx.rep.bump(&format!("bind:packs={}", c.args.iter().filter(|a| a.1).count()));
+            if d.self_ref.is_some() {
+                ctx.rep.bump(&format!("bind:self-ref,defaults={},caps={},generator={}", d.n_opt().min(1), d.caps.len().min(1), d.generator as u8));
+            }
+            if matches!(c.form, Form::PipedInst) {
+                ctx.rep.bump(&format!("bind:piped-into-method,depth={}", c.depth));
+            }
             ctx.push(bind_case(&d, &c));
         }
     }
